@@ -12,6 +12,9 @@ pub mod c11;
 pub mod c12;
 pub mod c13;
 pub mod c14;
+pub mod c15;
+pub mod c17;
+pub mod c18;
 
 use crate::run::{Ctx, Gen};
 
@@ -40,5 +43,8 @@ pub fn all() -> Vec<Prop> {
         Prop { id: "C09", gens: c09::gens, run: c09::run, rule: c09::RULE, assumptions: c09::ASSUMPTIONS },
         Prop { id: "C07", gens: c07::gens, run: c07::run, rule: c07::RULE, assumptions: c07::ASSUMPTIONS },
         Prop { id: "C10", gens: c10::gens, run: c10::run, rule: c10::RULE, assumptions: c10::ASSUMPTIONS },
+        Prop { id: "C15", gens: c15::gens, run: c15::run, rule: c15::RULE, assumptions: c15::ASSUMPTIONS },
+        Prop { id: "C18", gens: c18::gens, run: c18::run, rule: c18::RULE, assumptions: c18::ASSUMPTIONS },
+        Prop { id: "C17", gens: c17::gens, run: c17::run, rule: c17::RULE, assumptions: c17::ASSUMPTIONS },
     ]
 }
